@@ -406,3 +406,58 @@ def rule_alt_left_truth(db: ProgramDB) -> List[Instance]:
                         "alternative whose base matches nothing at all applies the BASE's conclusion to its own matches (" + " ".join(cfg.describe_path(bad)[-2:]) + ")" if bad else
                         "the left side's flag is set to false before the right side's rows are handed on", line=t.lineno))
     return out
+
+
+# ---------------------------------------------------------------------------------- CONCLUSION-VARS-BOUND
+def rule_conclusion_vars_bound(db: ProgramDB) -> List[Instance]:
+    """A branch can fire for a row that does not bind every variable its conclusions mention (the base failed at a condition
+    before the one that binds it).  A conclusion applied to such a row takes the first value of the variable; each
+    assignment has to get its conclusion, so the row handed to the conclusions comes out of a loop that binds the
+    variables the conclusions mention and the row lacks."""
+    from ..evalsites import site_model
+    from .binding import binding_params
+    out = []
+    model = site_model(db)
+    qod = db.cls("QueryObjectDescriptor")
+    n = 0
+    for s in model.sites:
+        if s.fn.cls is None or not (s.fn.cls is qod or s.fn.cls.is_subclass_of(qod)):
+            continue
+        if not (s.origins and all("_conclusion_" in o for o in s.origins)):
+            continue
+        n += 1
+        fn = s.fn
+        ok = False
+        why = ""
+        node = s.call
+        # enclosing for loops, innermost last
+        loops = [l for l in own_nodes(fn.node) if isinstance(l, ast.For) and any(x is node for b in l.body for x in ast.walk(b))]
+        for l in loops:
+            it = l.iter
+            if not (isinstance(it, ast.Call) and isinstance(it.func, ast.Attribute) and isinstance(it.func.value, ast.Name) and it.func.value.id == "self"):
+                continue
+            helper = fn.cls.lookup(it.func.attr)
+            if helper is None or not helper.is_generator or not binding_params(helper):
+                continue
+            # one of the arguments is computed from the conclusions' variables
+            for a in it.args:
+                srcs = [a]
+                if isinstance(a, ast.Call) and isinstance(a.func, ast.Attribute) and isinstance(a.func.value, ast.Name) and a.func.value.id == "self":
+                    h2 = fn.cls.lookup(a.func.attr)
+                    if h2 is not None:
+                        srcs.append(h2.node)
+                if any(isinstance(x, ast.Attribute) and x.attr == "_conclusion_" for s_ in srcs for x in ast.walk(s_)) and \
+                        any(isinstance(x, ast.Attribute) and x.attr in ("_unique_variables_", "_all_variable_instances_") for s_ in srcs for x in ast.walk(s_)):
+                    # the row given to the conclusion is the loop's row
+                    tn = {x.id for x in ast.walk(l.target) if isinstance(x, ast.Name)}
+                    if s.binding is not None and {x.id for x in ast.walk(s.binding) if isinstance(x, ast.Name)} & tn:
+                        ok = True
+                        why = f"`for {unparse(l.target)} in {unparse(it)[:70]}` binds them first"
+        out.append(inst("CONCLUSION-VARS-BOUND", HOLDS if ok else VIOLATION, fn, f"{fn.short}[{unparse(s.call)[:50]}: variables of the conclusion are bound]",
+                        why if ok else
+                        f"`{unparse(s.call)}` applies the conclusion to the row as the branch yielded it: a variable the conclusion mentions and the row does "
+                        f"not bind (the base failed before binding it) takes its first value only - Add(v, Pair(x, y, 'alt')) under alternative(y.m != 2) "
+                        f"of a base y.m < 1, x.a > y.k misses ('i1', 's0', 'alt')", line=s.line))
+    if n == 0:
+        raise AnalysisError("QueryObjectDescriptor: the place where conclusions are applied to a row was not found")
+    return out
